@@ -232,6 +232,42 @@ Theorem C19_fetch_chunk_total_safe_current :
 Proof. exact fetch_chunk_safe_current. Qed.
 Print Assumptions C19_fetch_chunk_total_safe_current.
 
+(* ---- compressed data page v2: levels copied uncompressed, the rest through the codec (an oracle) *)
+Theorem C19_page_v2_total_safe_if_checked : forall chunk_len off usz csz rep def ok,
+  is_i32 usz ->
+  out_clean (p_out (load_page_v2_compressed true true chunk_len off usz csz rep def ok)) /\
+  p_alloc (load_page_v2_compressed true true chunk_len off usz csz rep def ok) < 2 ^ 31.
+Proof. exact page_v2_safe_checked. Qed.
+Print Assumptions C19_page_v2_total_safe_if_checked.
+Example C19_page_v2_total_safe_if_checked_sat : is_i32 50.
+Proof. unfold is_i32. split; discriminate || reflexivity. Qed.
+
+Theorem C19_page_v2_witnesses_refuted :
+  (forall le_c ok, load_page_v2_compressed le_c false 100 20 12 20 0 13 ok = mk_paged (TPanic site_levels_dest) 12) /\
+  (forall le_u ok, load_page_v2_compressed false le_u 100 20 50 10 0 13 ok = mk_paged (TPanic site_levels_sub) 50) /\
+  (forall ok, load_page_v2_compressed true true 100 20 12 20 0 13 ok = mk_paged TErr 12) /\
+  (forall ok, load_page_v2_compressed true true 100 20 50 10 0 13 ok = mk_paged TErr 50) /\
+  load_page_v2_compressed true true 100 20 50 10 2 3 true = mk_paged (TOk 30) 50 /\
+  load_page_v2_compressed true true 100 20 50 10 2 3 false = mk_paged TErr 50.
+Proof. exact page_v2_witnesses. Qed.
+Print Assumptions C19_page_v2_witnesses_refuted.
+
+Theorem C19_page_v2_verdict_current :
+  exists a b, TablesFault.v2_levels_le_compressed = Some a /\ TablesFault.v2_levels_le_uncompressed = Some b /\
+    (if a && b
+     then forall chunk_len off usz csz rep def ok, is_i32 usz ->
+            out_clean (p_out (load_page_v2_compressed a b chunk_len off usz csz rep def ok)) /\
+            p_alloc (load_page_v2_compressed a b chunk_len off usz csz rep def ok) < 2 ^ 31
+     else exists chunk_len off usz csz rep def x, forall ok,
+            p_out (load_page_v2_compressed a b chunk_len off usz csz rep def ok) = TPanic x).
+Proof. exact page_v2_verdict_current. Qed.
+Print Assumptions C19_page_v2_verdict_current.
+
+Theorem C19_page_v2_level_checks_present :
+  TablesFault.v2_levels_le_compressed = Some true /\ TablesFault.v2_levels_le_uncompressed = Some true.
+Proof. exact page_v2_safe_current. Qed.
+Print Assumptions C19_page_v2_level_checks_present.
+
 (* ---- bit-level helpers of the page decoders (bitutil.rs, rle_bit_packed.rs; models of C10) *)
 Theorem C19_vlq_decode_no_panic : forall bs, vlq_decode bs <> Panic.
 Proof. exact vlq_decode_no_panic. Qed.
